@@ -52,6 +52,26 @@ CLAIMS = {
              "absence of any step after a top-level final, the onexit marks of exitInterpreter in exit order and the "
              "reported final configuration must equal the model's. Not covered: donedata payload, done.invoke (C14).",
         note=CORE_NOTE),
+    "C08": dict(
+        category="model_checking", design_ref="4/C08",
+        technique="TLC-generated behaviours replayed; lock-step trace validation of marks and internal enqueues against Sem.ExecBlock",
+        text="Random nested executable content (if/elseif/else, foreach incl. failing/non-collection arrays, assign to declared and "
+             "undeclared locations, raise, send to #_internal, log, script) in onentry/onexit/transition/initial/history-default "
+             "bodies, plus variants with a failing expression injected at each expression position; for every behaviour the "
+             "order of the recorded marks (branch taken, iteration order, data values), every internal enqueue (raised events, "
+             "error.execution, observed through the hook) and the continuation after the aborted block must equal Sem.tla. "
+             "Run for rfsm-expression and ecmascript (strict option); raise/send/if-In also for the null datamodel.",
+        note=CORE_NOTE + " An error in a <param> of <send> is not exercised (the Recommendation is ambiguous there)."),
+    "C10": dict(
+        category="model_checking", design_ref="4/C10",
+        technique="Expr.tla (precedence, left-to-right grouping, value semantics) enumerated by TLC as generator + oracle; engine evaluated on every text",
+        text="TLC enumerates every expression operand (op operand)^K (K=1 over all 28 operand classes and 14 operators, K=2/3 over "
+             "reduced sets) with an optional parenthesised sub-range and optional '!', computes the value with Expr.tla "
+             "(Integer saturating arithmetic incl. symbolic i64 MAX/MIN, Double as exact rational, string/array/map aggregation, "
+             "structural equality); the engine must return the same value through the parser, a freshly compiled datamodel "
+             "expression and the cached compilation, and for whitespace / redundant-parenthesis variants of the text. Cases the "
+             "documentation leaves undefined are not judged. Member/index/assignment forms are not covered yet.",
+        note="Trusted: Expr.tla as the reading of the documented semantics; the harness' value encoding; Doubles compared within 1e-12."),
     "C19": dict(
         category="model_checking", design_ref="4/C19",
         technique="trace validation of probe documents against Sem.NameMatch (token-prefix matching) under TLC",
